@@ -12,6 +12,7 @@ PROP = {
         {"name": "ato", "quick": 4000000, "thorough": 20000000, "maxlen": 40},
         {"name": "libc_itoa", "quick": 1500000, "thorough": 10000000, "maxlen": 32},
         {"name": "dprint", "quick": 1500000, "thorough": 10000000, "maxlen": 32},
+        {"name": "dprint_buf", "quick": 300000, "thorough": 3000000, "maxlen": 32},
     ],
     "fuzz": [{"name": "ato", "secs": 45, "maxlen": 40}, {"name": "toa", "secs": 30, "maxlen": 32}],
 }
